@@ -11,6 +11,8 @@ CONSTANTS
   EnvShift = 0
   SkipLastBond = FALSE
   DropInnerTag = TRUE
+  Targets <- TargetsQuick
+  CrossedBound = FALSE
   StoreByRef = TRUE
   Emit = FALSE
 INVARIANT EnvConsistent
